@@ -237,17 +237,23 @@ def run_loop_part(module, qualname, case_value, part, env0, nth=0):
 
     def run(stmts):
         exec(compile(_ast.fix_missing_locations(_ast.Module(list(stmts), [])), "<loop>", "exec"), g, env)
-    if part == "init":
-        run(pre)
-    elif part == "step":
-        go = bool(eval(compile(_ast.fix_missing_locations(_ast.Expression(loop.test)), "<loop>", "eval"), g, env))
-        if go:
-            run(loop.body)
-        out["__continue__"] = go
-    elif part == "exit":
-        out["__return__"] = eval(compile(_ast.fix_missing_locations(_ast.Expression(post[0].value)), "<loop>", "eval"), g, env)
-    else:
-        raise ValueError(part)
+    try:
+        if part == "names":
+            for kk, vv in slices.loop_names(pre, loop, post, list(g)).items():
+                out["__%s__" % kk] = list(vv)
+        elif part == "init":
+            run(pre)
+        elif part == "step":
+            go = bool(eval(compile(_ast.fix_missing_locations(_ast.Expression(loop.test)), "<loop>", "eval"), g, env))
+            if go:
+                run(loop.body)
+            out["__continue__"] = go
+        elif part == "exit":
+            out["__return__"] = eval(compile(_ast.fix_missing_locations(_ast.Expression(post[0].value)), "<loop>", "eval"), g, env)
+        else:
+            raise ValueError(part)
+    except (NameError, AttributeError, TypeError, KeyError) as e:
+        raise slices.SliceMismatch("loop part `%s` needs context the harness does not supply: %r" % (part, e))
     out.update(env)
     return out
 
